@@ -57,3 +57,25 @@ Proof.
   - destruct (cert p); try discriminate; reflexivity.
 Qed.
 Print Assumptions C16_client.
+
+(* one *tls.Config prepared for BOTH roles (a process that is a KMIP server and a client of another one): the client helper
+   leaves the server's client-authentication policy alone and the server helper leaves the client's verification switch
+   alone, so in either order the result keeps both guarantees *)
+Theorem C16_helpers_do_not_undo_each_other : forall c0 c,
+  (apply_assignments gen_DefaultClientTLSConfig c0 = Some c -> cauth c = cauth c0 /\ 771 <= min_version c) /\
+  (apply_assignments gen_DefaultServerTLSConfig c0 = Some c -> insecure_skip_verify c = insecure_skip_verify c0).
+Proof.
+  intros c0 c. split; intros H; cbn in H; injection H as <-; cbn; [split; [reflexivity|discriminate]|reflexivity].
+Qed.
+Print Assumptions C16_helpers_do_not_undo_each_other.
+
+Theorem C16_shared_config : forall c0 s c p,
+  apply_assignments gen_DefaultServerTLSConfig c0 = Some s ->
+  apply_assignments gen_DefaultClientTLSConfig s = Some c ->
+  server_handshake_ok c p = true ->
+  plaintext p = false /\ 771 <= max_version p /\ cert_verifies (cert p) = true.
+Proof.
+  intros c0 s c p Hs Hc. cbn in Hs. injection Hs as <-. cbn in Hc. injection Hc as <-.
+  exact (C16_server _ p eq_refl).
+Qed.
+Print Assumptions C16_shared_config.
